@@ -7,42 +7,74 @@ From Verif Require Import Model.Val Gen.Src_Clockwork Model.Clockwork Proofs.Clo
   Proofs.ClockworkP4 Proofs.ClockworkP5 Proofs.ClockworkP6 Proofs.ClockworkP7 Proofs.ClockworkP8.
 Open Scope Z_scope.
 
-(* ------------------------------------------------------------------ resources *)
-Definition rname (e : Z * Z * Z) : Z := fst (fst e).
-Definition res_simple (req : resvec) : Prop := NoDup (map rname req).
-Definition res_ok (wd : world) : Prop := forall mid ss s, zassoc mid wd = Some ss -> In s ss -> res_simple (s_res s).
+(* ------------------------------------------------------------------ resources: what fits can be allocated *)
+Definition res_nonneg (v : resvec) : Prop := Forall (fun e => 0 <= snd e) v.
+Definition world_nonneg (wd : world) : Prop := forall mid ss s, zassoc mid wd = Some ss -> In s ss -> res_nonneg (s_res s).
+Definition pools_nonneg (ps : list pool) : Prop := Forall (fun p => Forall (fun w => res_nonneg (w_res w)) (p_workers p)) ps.
 
-Lemma res_match_name : forall n i n' i', res_match n i n' i' = true -> n = n'.
-Proof. intros. unfold res_match in H. lia. Qed.
-Lemma alloc_loop_other : forall v n i q n' i', n' <> n -> res_avail (alloc_loop v n i q) n' i' = res_avail v n' i'.
+Lemma take_zero : forall v n i, take_loop v n i 0 = (v, 0).
 Proof.
-  induction v as [|[[a b] c] v IH]; intros n i q n' i' Hne; cbn [alloc_loop res_avail]; [reflexivity|].
-  assert (Hm : forall x, res_match n i a b = true -> res_match n' i' a x = false).
-  { intros x H. apply res_match_name in H. unfold res_match. lia. }
-  destruct (res_match n i a b) eqn:E.
-  - destruct (q <=? c).
-    + cbn [res_avail]. rewrite !(Hm b eq_refl). reflexivity.
-    + destruct (q - c =? 0); destruct (0 <? c); cbn [res_avail]; rewrite ?(Hm b eq_refl); try rewrite IH by assumption; reflexivity.
-  - destruct (q =? 0); cbn [res_avail]; try rewrite IH by assumption; reflexivity.
+  induction v as [|[[a b] c] v IH]; intros n i; cbn [take_loop]; [reflexivity|].
+  rewrite andb_false_r, IH. reflexivity.
 Qed.
-Lemma allocate_seq_ok : forall req v, res_simple req ->
-  (forall n i q, In (n, i, q) req -> q <= res_avail v n i) -> exists v', res_allocate_seq req v = Ok v'.
+Lemma res_avail_nonneg : forall v n i, res_nonneg v -> 0 <= res_avail v n i.
 Proof.
-  induction req as [|[[n i] q] req IH]; intros v Hs Hq; cbn [res_allocate_seq]; [eauto|].
-  unfold res_allocate. specialize (Hq n i q (or_introl eq_refl)) as Hq0.
-  destruct (res_avail v n i <? q) eqn:E; [lia|].
-  unfold res_simple in Hs. cbn [map] in Hs. inversion Hs as [|? ? Hn Hd]; subst. apply IH; [assumption|].
-  intros n' i' q' Hin. rewrite alloc_loop_other; [apply Hq; right; assumption|].
-  intros ->. apply Hn. apply in_map_iff. exists (n, i', q'). split; [reflexivity|assumption].
+  induction v as [|[[a b] c] v IH]; intros n i H; cbn [res_avail]; [lia|]. inversion H as [|? ? Hc Hv]; subst. cbn in Hc.
+  specialize (IH n i Hv). destruct (res_match n i a b); lia.
 Qed.
-Lemma w_place_ok : forall w s, fits w s = true -> 1 <= s_bs s -> res_simple (s_res s) -> exists w1, w_place w s = Ok w1.
+(* the scratch play of one request and Resources.allocate do the same thing to the vector *)
+Lemma take_alloc : forall v n i rem v' r, res_nonneg v -> 0 <= rem -> take_loop v n i rem = (v', r) ->
+  0 <= r /\ res_nonneg v' /\ res_avail v n i = res_avail v' n i + (rem - r) /\ (r = 0 -> alloc_loop v n i rem = v') /\
+  (forall n2 i2, res_avail v' n2 i2 <= res_avail v n2 i2).
 Proof.
-  intros w s Hf Hb Hs. unfold w_place. destruct (s_bs s <? 1) eqn:E; [lia|].
-  unfold fits, res_gt in Hf. rewrite forallb_forall in Hf. unfold res_allocate_multiple.
-  assert (Hq : forall n i q, In (n, i, q) (s_res s) -> q <= res_avail (w_res w) n i) by (intros n i q Hin; specialize (Hf _ Hin); cbn in Hf; lia).
-  destruct (existsb _ (s_res s)) eqn:Ex.
+  induction v as [|[[a b] c] v IH]; intros n i rem v' r Hn Hr H; cbn [take_loop] in H.
+  - injection H as <- <-. cbn. split; [lia|]. split; [constructor|]. split; [lia|]. split; [reflexivity|intros; lia].
+  - inversion Hn as [|? ? Hc Hv]; subst. cbn in Hc. cbn [alloc_loop res_avail].
+    destruct (res_match n i a b) eqn:Em; destruct (0 <? rem) eqn:Er; cbn [andb] in H.
+    + destruct (take_loop v n i (rem - Z.min c rem)) as [v'' r0] eqn:Et. injection H as <- <-.
+      assert (Hr2 : 0 <= rem - Z.min c rem) by lia.
+      destruct (IH n i _ _ _ Hv Hr2 Et) as [A1 [A2 [A3 [A4 A5]]]].
+      split; [assumption|]. split; [constructor; [cbn; lia|assumption]|]. cbn [res_avail]. rewrite Em. split; [lia|]. split.
+      * intros ->. destruct (rem <=? c) eqn:El.
+        -- assert (Em2 : Z.min c rem = rem) by lia. rewrite Em2, Z.sub_diag, take_zero in Et. injection Et as <-. rewrite Em2. reflexivity.
+        -- assert (Em2 : Z.min c rem = c) by lia. rewrite Em2 in *. rewrite Z.sub_diag.
+           assert (E0 : (if 0 <? c then (a, b, 0) else (a, b, c)) = (a, b, 0)) by (destruct (0 <? c) eqn:E1; [reflexivity|assert (c = 0) by lia; subst; reflexivity]).
+           rewrite E0. assert (E2 : rem - c =? 0 = false) by lia. rewrite E2. f_equal. apply A4. reflexivity.
+      * intros n2 i2. specialize (A5 n2 i2). destruct (res_match n2 i2 a b); lia.
+    + assert (rem = 0) by lia. subst rem. rewrite take_zero in H. injection H as <- <-.
+      split; [lia|]. split; [assumption|]. cbn [res_avail]. rewrite Em. split; [lia|]. split; [|intros; lia].
+      intros _. assert (E1 : 0 <=? c = true) by lia. rewrite E1, Z.sub_0_r. reflexivity.
+    + destruct (take_loop v n i rem) as [v'' r0] eqn:Et. injection H as <- <-.
+      destruct (IH n i _ _ _ Hv Hr Et) as [A1 [A2 [A3 [A4 A5]]]].
+      split; [assumption|]. split; [constructor; [cbn; lia|assumption]|]. cbn [res_avail]. rewrite Em. split; [lia|]. split.
+      * intros E. assert (E2 : rem =? 0 = false) by lia. rewrite E2. f_equal. apply A4. assumption.
+      * intros n2 i2. specialize (A5 n2 i2). destruct (res_match n2 i2 a b); lia.
+    + assert (rem = 0) by lia. subst rem. rewrite take_zero in H. injection H as <- <-.
+      split; [lia|]. split; [assumption|]. cbn [res_avail]. rewrite Em. split; [lia|]. split; [|intros; lia].
+      intros _. reflexivity.
+Qed.
+(* Resources.__gt__ true  ==>  allocate_multiple serves every request *)
+Lemma play_allocate : forall req v, res_nonneg v -> res_nonneg req -> res_play v req = true ->
+  (forall n i q, In (n, i, q) req -> q <= res_avail v n i) /\ exists v', res_allocate_seq req v = Ok v' /\ res_nonneg v'.
+Proof.
+  induction req as [|[[n i] q] req IH]; intros v Hv Hq H; cbn [res_play res_allocate_seq] in *.
+  - split; [intros ? ? ? []|eauto].
+  - inversion Hq as [|? ? Hq0 Hq']; subst. cbn in Hq0.
+    destruct (take_loop v n i q) as [v1 r] eqn:Et. destruct (0 <? r) eqn:Er; [discriminate|].
+    destruct (take_alloc v n i q v1 r Hv Hq0 Et) as [A1 [A2 [A3 [A4 A5]]]]. assert (r = 0) by lia. subst r.
+    pose proof (res_avail_nonneg v1 n i A2) as Hnn.
+    destruct (IH v1 A2 Hq' H) as [B1 [v' [B2 B3]]]. split.
+    + intros n2 i2 q2 [E|Hin]; [injection E as <- <- <-; lia|]. specialize (B1 _ _ _ Hin). specialize (A5 n2 i2). lia.
+    + unfold res_allocate. assert (E1 : res_avail v n i <? q = false) by lia. rewrite E1, (A4 eq_refl). eauto.
+Qed.
+Lemma w_place_ok : forall w s, fits w s = true -> 1 <= s_bs s -> res_nonneg (w_res w) -> res_nonneg (s_res s) ->
+  exists w1, w_place w s = Ok w1 /\ res_nonneg (w_res w1).
+Proof.
+  intros w s Hf Hb Hw Hs. unfold w_place. destruct (s_bs s <? 1) eqn:E; [lia|].
+  unfold fits, res_gt in Hf. destruct (play_allocate (s_res s) (w_res w) Hw Hs Hf) as [Hq [v' [Hv Hn]]].
+  unfold res_allocate_multiple. destruct (existsb _ (s_res s)) eqn:Ex.
   - apply existsb_exists in Ex. destruct Ex as [[[n i] q] [Hin Hlt]]. specialize (Hq _ _ _ Hin). lia.
-  - destruct (allocate_seq_ok (s_res s) (w_res w) Hs Hq) as [v' Hv]. rewrite Hv. eauto.
+  - rewrite Hv. eexists. split; [reflexivity|assumption].
 Qed.
 
 (* ------------------------------------------------------------------ the deque entries describe the current queues *)
@@ -88,11 +120,11 @@ Proof.
 Qed.
 
 Lemma infer_loop_ok : forall wd fuel ls now pid w st e acc,
-  world_wf wd -> bs_pos wd -> res_ok wd -> Inv_st wd st -> esq_ok wd e -> esq_fresh st e ->
+  world_wf wd -> bs_pos wd -> world_nonneg wd -> res_nonneg (w_res w) -> Inv_st wd st -> esq_ok wd e -> esq_fresh st e ->
   (length e + st_total st < fuel)%nat ->
   exists r, infer_loop fuel ls now pid w st e acc = Ok r.
 Proof.
-  intros wd fuel. induction fuel as [|f IH]; intros ls now pid w st e acc Hw Hp Hr Hi He Hfr Hf; [exfalso; lia|]. cbn [infer_loop].
+  intros wd fuel. induction fuel as [|f IH]; intros ls now pid w st e acc Hw Hp Hr Hwn Hi He Hfr Hf; [exfalso; lia|]. cbn [infer_loop].
   destruct e as [|[mid ss] e']; [eauto|].
   inversion He as [|? ? [ssw [Hzw Hincl]] He']; subst. cbn [fst snd] in Hzw, Hincl. cbn [length] in Hf.
   destruct Hfr as [Hnd Hfa]. cbn [map fst] in Hnd. inversion Hnd as [|? ? Hnin Hnd']; subst.
@@ -111,9 +143,9 @@ Proof.
   destruct (Hfq s Hs_ss) as [q [Hq Hbq]].
   destruct (get_placements_ok s q m Him Hq Hbq) as [ts [m1 Egp]]. rewrite Egp.
   assert (Hbs : 1 <= s_bs s) by exact (Hp mid ssw s Hzw Hs_w).
-  assert (Ewp : exists w1, (if nonempty ts then w_place w s else Ok w) = Ok w1).
-  { destruct (nonempty ts); [|eauto]. apply w_place_ok; [assumption|assumption|exact (Hr mid ssw s Hzw Hs_w)]. }
-  destruct Ewp as [w1 Ewp]. rewrite Ewp.
+  assert (Ewp : exists w1, (if nonempty ts then w_place w s else Ok w) = Ok w1 /\ res_nonneg (w_res w1)).
+  { destruct (nonempty ts); [|eauto]. apply w_place_ok; [assumption|assumption|assumption|exact (Hr mid ssw s Hzw Hs_w)]. }
+  destruct Ewp as [w1 [Ewp Hwn1]]. rewrite Ewp.
   destruct (get_placements_spec s m ts m1 Him Egp) as [Him1 [Hsh1 [[s' [q' [Hq' [Hsid [Hts Hlen]]]]] [_ [Hsize _]]]]].
   assert (Hcf1 : conforms wd m1).
   { unfold conforms in *. rewrite (shrinks_strategies m1 m Hsh1). destruct Hsh1 as [E _]. rewrite E. assumption. }
@@ -156,10 +188,10 @@ Proof.
   destruct (avail_strats_ok now m) as [m' [ss Ea]]; [assumption|eapply conforms_bs; eassumption|]. rewrite Ea.
   destruct IH as [[st'' e0] Eb]; [assumption|assumption|]. rewrite Eb. eauto.
 Qed.
-Lemma infer_worker_ok : forall wd ls now pid w st acc, world_wf wd -> bs_pos wd -> res_ok wd -> Inv_st wd st ->
+Lemma infer_worker_ok : forall wd ls now pid w st acc, world_wf wd -> bs_pos wd -> world_nonneg wd -> res_nonneg (w_res w) -> Inv_st wd st ->
   exists r, infer_worker ls now pid w st acc = Ok r.
 Proof.
-  intros wd ls now pid w st acc Hw Hp Hr Hi. unfold infer_worker.
+  intros wd ls now pid w st acc Hw Hp Hr Hwn Hi. unfold infer_worker.
   destruct (build_esq_ok wd now st Hp (st_inv wd st Hi) (st_conf wd st Hi)) as [[st1 e] Eb]. rewrite Eb.
   destruct (build_esq_aux wd now st st1 e (st_inv wd st Hi) (st_conf wd st Hi) Eb) as [F2 [He _]].
   destruct (forall2_shrinks_facts wd now st1 st Hi F2) as [Hi1 _].
@@ -170,49 +202,59 @@ Proof.
   assert (He1 : esq_ok wd (if ls then sort_esq st1 e else e)) by (destruct ls; [apply esq_ok_sort|]; assumption).
   assert (Hfr1 : esq_fresh st1 (if ls then sort_esq st1 e else e)) by (destruct ls; [apply esq_fresh_sort|]; assumption).
   match goal with |- context [infer_loop ?fu ?x1 ?x2 ?x3 ?x4 ?x5 ?x6 ?x7] =>
-    destruct (infer_loop_ok wd fu x1 x2 x3 x4 x5 x6 x7 Hw Hp Hr Hi1 He1 Hfr1) as [[[w2 st2] acc2] El]; [unfold infer_fuel; lia|rewrite El] end.
+    destruct (infer_loop_ok wd fu x1 x2 x3 x4 x5 x6 x7 Hw Hp Hr Hwn Hi1 He1 Hfr1) as [[[w2 st2] acc2] El]; [unfold infer_fuel; lia|rewrite El] end.
   eauto.
 Qed.
-Lemma infer_workers_ok : forall wd ls now p ws st acc, world_wf wd -> bs_pos wd -> res_ok wd -> Inv_st wd st ->
+Lemma infer_workers_ok : forall wd ls now p ws st acc, world_wf wd -> bs_pos wd -> world_nonneg wd ->
+  Forall (fun w => res_nonneg (w_res w)) ws -> Inv_st wd st ->
   Forall (batch_ok wd) acc -> once_inv acc st -> exists r, infer_workers ls now p ws st acc = Ok r.
 Proof.
-  intros wd ls now p ws. induction ws as [|w ws IH]; intros st acc Hw Hp Hr Hi Hb Ho; cbn [infer_workers]; [eauto|].
-  destruct (infer_worker_ok wd ls now p w st acc Hw Hp Hr Hi) as [[st1 acc1] E1]. rewrite E1.
+  intros wd ls now p ws. induction ws as [|w ws IH]; intros st acc Hw Hp Hr Hwn Hi Hb Ho; cbn [infer_workers]; [eauto|].
+  inversion Hwn as [|? ? Hwn1 Hwn2]; subst.
+  destruct (infer_worker_ok wd ls now p w st acc Hw Hp Hr Hwn1 Hi) as [[st1 acc1] E1]. rewrite E1.
   destruct (infer_worker_spec _ _ _ _ _ _ _ _ _ Hw Hi Hb Ho E1) as [A1 [A2 [A3 _]]]. apply IH; assumption.
 Qed.
-Lemma infer_pools_ok : forall wd ls now ps st acc, world_wf wd -> bs_pos wd -> res_ok wd -> Inv_st wd st ->
+Lemma infer_pools_ok : forall wd ls now ps st acc, world_wf wd -> bs_pos wd -> world_nonneg wd -> pools_nonneg ps -> Inv_st wd st ->
   Forall (batch_ok wd) acc -> once_inv acc st -> exists r, infer_pools ls now ps st acc = Ok r.
 Proof.
-  intros wd ls now ps. induction ps as [|p ps IH]; intros st acc Hw Hp Hr Hi Hb Ho; cbn [infer_pools]; [eauto|].
-  destruct (infer_workers_ok wd ls now (p_id p) (p_workers p) st acc Hw Hp Hr Hi Hb Ho) as [[st1 acc1] E1]. rewrite E1.
+  intros wd ls now ps. induction ps as [|p ps IH]; intros st acc Hw Hp Hr Hpn Hi Hb Ho; cbn [infer_pools]; [eauto|].
+  inversion Hpn as [|? ? Hpn1 Hpn2]; subst.
+  destruct (infer_workers_ok wd ls now (p_id p) (p_workers p) st acc Hw Hp Hr Hpn1 Hi Hb Ho) as [[st1 acc1] E1]. rewrite E1.
   destruct (infer_workers_spec _ _ _ _ _ _ _ _ _ Hw Hi Hb Ho (incl_refl _) E1) as [A1 [A2 [A3 _]]]. apply IH; assumption.
 Qed.
 
 Definition offered_known (wd : world) (inv : invocation) : Prop :=
   Forall (fun t => exists ss, zassoc (t_model t) wd = Some ss /\ ss <> []) (i_offered inv).
 (* schedule() returns a decision: no exception, no divergence *)
-Lemma cw_schedule_returns : forall wd ls inv st, world_wf wd -> bs_pos wd -> res_ok wd -> Inv_st wd st -> offered_known wd inv ->
-  exists st' d, cw_schedule wd ls inv st = Ok (st', d).
+Lemma cw_schedule_returns : forall wd ls inv st, world_wf wd -> bs_pos wd -> world_nonneg wd -> pools_nonneg (inv_pools inv) ->
+  Inv_st wd st -> offered_known wd inv -> exists st' d, cw_schedule wd ls inv st = Ok (st', d).
 Proof.
-  intros wd ls inv st Hw Hp Hr Hi Ho. unfold cw_schedule.
+  intros wd ls inv st Hw Hp Hr Hpn Hi Ho. unfold cw_schedule, inv_pools in *.
   destruct (admission_ok wd (i_now inv) (i_offered inv) st [] Ho) as [st1 [c Ea]]. rewrite Ea.
   destruct (admission_inv _ _ _ _ _ _ _ Hw Hi Ea) as [Hi1 _].
   assert (Ho0 : once_inv [] st1) by (split; [constructor|intros t []]).
   destruct (i_load inv) as [[l ps']|];
   match goal with |- context [infer_pools ?a ?b ?c ?d ?e] =>
-    destruct (infer_pools_ok wd a b c d e Hw Hp Hr Hi1 (Forall_nil _) Ho0) as [[st2 bs] Ei]; rewrite Ei end; eauto.
+    destruct (infer_pools_ok wd a b c d e Hw Hp Hr Hpn Hi1 (Forall_nil _) Ho0) as [[st2 bs] Ei]; rewrite Ei end; eauto.
 Qed.
-Lemma run_returns : forall wd ls invs st, world_wf wd -> bs_pos wd -> res_ok wd -> Inv_st wd st -> Forall (offered_known wd) invs ->
+Lemma run_returns : forall wd ls invs st, world_wf wd -> bs_pos wd -> world_nonneg wd -> Inv_st wd st ->
+  Forall (fun inv => offered_known wd inv /\ pools_nonneg (inv_pools inv)) invs ->
   Forall (fun r => exists d, r = Ok d) (cw_run wd ls invs st) /\ length (cw_run wd ls invs st) = length invs.
 Proof.
   intros wd ls invs. induction invs as [|inv rest IH]; intros st Hw Hp Hr Hi Ho; cbn [cw_run]; [split; [constructor|reflexivity]|].
-  inversion Ho as [|? ? Ho1 Ho2]; subst.
-  destruct (cw_schedule_returns wd ls inv st Hw Hp Hr Hi Ho1) as [st' [d Es]]. rewrite Es.
+  inversion Ho as [|? ? [Ho1 Hpn] Ho2]; subst.
+  destruct (cw_schedule_returns wd ls inv st Hw Hp Hr Hpn Hi Ho1) as [st' [d Es]]. rewrite Es.
   destruct (cw_schedule_spec _ _ _ _ _ _ Hw Hi Es) as [S1 _]. destruct (IH st' Hw Hp Hr S1 Ho2) as [A B].
   split; [constructor; [eauto|assumption]|cbn [length]; f_equal; assumption].
 Qed.
-Example ex_res_ok : res_ok ex_wd.
+Example ex_nonneg : world_nonneg ex_wd /\ Forall (fun inv => offered_known ex_wd inv /\ pools_nonneg (inv_pools inv)) ex_invs.
 Proof.
-  intros mid ss s H Hs. unfold ex_wd in H. cbn [zassoc] in H. destruct (1 =? mid); [|discriminate]. injection H as <-.
-  destruct Hs as [<-|[<-|[]]]; unfold res_simple; cbn; repeat constructor; intros [].
+  split.
+  - intros mid ss s H Hs. unfold ex_wd in H. cbn [zassoc] in H. destruct (1 =? mid); [|discriminate]. injection H as <-.
+    destruct Hs as [<-|[<-|[]]]; repeat constructor; cbn; lia.
+  - assert (K : forall i d, exists ss, zassoc (t_model (ex_t i d)) ex_wd = Some ss /\ ss <> []) by (intros; eexists; split; [reflexivity|discriminate]).
+    assert (P : pools_nonneg ex_pools) by (repeat constructor; cbn; lia).
+    assert (O : forall now l, Forall (fun t => exists i d, t = ex_t i d) l -> offered_known ex_wd (mkInv now l ex_pools None) /\ pools_nonneg (inv_pools (mkInv now l ex_pools None))).
+    { intros now l Hl. split; [|exact P]. unfold offered_known. cbn [i_offered]. eapply Forall_impl; [|exact Hl]. intros t [i [d ->]]. exact (K i d). }
+    unfold ex_invs. repeat (constructor; [apply O; repeat (constructor; [eexists; eexists; reflexivity|])|]); constructor.
 Qed.
